@@ -14,5 +14,13 @@ class BoundCallable(CanCustomize, object):
             # Update wrapper if we can, but not fatal if we can't
             pass
 
+        # Carry the executor's name, so that executors created by chaining
+        # with_* calls onto this callable inherit it (as they do when chaining
+        # onto the executor itself).
+        for name_attr in ("_name", "_CustomizableThreadPoolExecutor__name"):
+            if hasattr(executor, name_attr):
+                self._name = getattr(executor, name_attr)
+                break
+
     def __call__(self, *args, **kwargs):
         return self.__executor.submit(self.__fn, *args, **kwargs)
